@@ -959,6 +959,25 @@ func (cl *Cluster) answerEvent(nc *NodeConn, pc *PCmd, b []byte, kind, cls, to s
 }
 
 // CloseConns closes (from the node side) every open data connection of the node.
+// PurgeClosed forgets the connections that are over (closed by the node or by the proxy).  Called between scenarios: a
+// later connection from the same local port of the proxy must not be taken for one of them.
+func (cl *Cluster) PurgeClosed() {
+	cl.mu.Lock()
+	defer cl.mu.Unlock()
+	for _, n := range cl.Nodes {
+		keep := n.Conns[:0]
+		for _, nc := range n.Conns {
+			if !nc.Closed && !nc.PeerEOF {
+				keep = append(keep, nc)
+			}
+		}
+		for k := len(keep); k < len(n.Conns); k++ {
+			n.Conns[k] = nil
+		}
+		n.Conns = keep
+	}
+}
+
 func (cl *Cluster) CloseConns(name string, onlyData bool) int {
 	cl.mu.Lock()
 	n := cl.byName[name]
